@@ -45,7 +45,11 @@ def validate_output_conflicts(
         GraphConfigError: If multiple nodes produce the same output and they
             are neither mutex nor ordered.
     """
-    expanded_groups = _expand_mutex_groups(G, nodes)
+    # Branch membership must see the data flow from EVERY producer of a name; the
+    # inferred graph only records an edge from the first one (explicit mode trusts
+    # the declared topology as is).
+    reach_graph = G if explicit_edges else _with_all_producer_edges(G, nodes, output_to_sources)
+    expanded_groups = _expand_mutex_groups(reach_graph, nodes)
 
     # Collect outputs that have multiple producers
     contested_outputs = {output: sources for output, sources in output_to_sources.items() if len(sources) > 1}
@@ -205,6 +209,22 @@ def _is_pair_ordered(
     return nx.has_path(sub, a, b) or nx.has_path(sub, b, a)
 
 
+def _with_all_producer_edges(
+    G: nx.DiGraph,
+    nodes: list[HyperNode],
+    output_to_sources: dict[str, list[str]],
+) -> nx.DiGraph:
+    """Copy of G's topology plus a data edge from every producer of each consumed name."""
+    full = nx.DiGraph()
+    full.add_nodes_from(G.nodes())
+    full.add_edges_from(G.edges())
+    for node in nodes:
+        for param in node.inputs:
+            for source in output_to_sources.get(param, []):
+                full.add_edge(source, node.name)
+    return full
+
+
 def _compute_exclusive_reachability(G: nx.DiGraph, targets: list[str]) -> dict[str, set[str]]:
     """For each target, find nodes reachable ONLY through that target.
 
@@ -217,7 +237,10 @@ def _compute_exclusive_reachability(G: nx.DiGraph, targets: list[str]) -> dict[s
     all_reachable_nodes = [node for nodes in reachable.values() for node in nodes]
     node_counts = Counter(all_reachable_nodes)
 
-    return {t: {node for node in reachable[t] if node_counts[node] == 1} for t in targets}
+    # A direct target always belongs to its own branch: one decision of an
+    # exclusive gate activates exactly one of them, even when the targets can
+    # reach each other (e.g. through shared state in a cycle).
+    return {t: {node for node in reachable[t] if node_counts[node] == 1 or node == t} for t in targets}
 
 
 def _expand_mutex_groups(G: nx.DiGraph, nodes: list[HyperNode]) -> list[list[set[str]]]:
